@@ -248,4 +248,4 @@ def _dict_keys(spec):
 
 
 def search(ctx):
-    core.run_given(ctx, "skip", cases(), lambda c: check(ctx, c), ctx.n(110, 1000))
+    core.run_given(ctx, "skip", cases(), lambda c: check(ctx, c), ctx.n(110, 500))
